@@ -14,7 +14,7 @@ for pid in claimed:
         "property_id": pid, "quick_cmd": "./check %s quick" % pid, "thorough_cmd": "./check %s thorough" % pid,
         "evidence_file": "evidence/%s.json" % pid, "replay_cmd_template": "./check %s --replay {path}" % pid,
         "engine": "pyvc", "technique": TECH,
-        "level_claimed": {"category": "proof", "design_ref": "DESIGN.md section 5 %s" % pid, "text": c["text"]},
+        "level_claimed": {"category": c.get("category", "proof"), "design_ref": "DESIGN.md section 5 %s" % pid, "text": c["text"]},
         "level_note": c["note"]})
 for e in m["engines"]:
     e["serves_properties"] = claimed
